@@ -530,7 +530,7 @@ func genC05cmd(c *Ctx) {
 	r := c.R
 	// (1) taktician analyze (minimax) on small games: one engine per colour under -all, a fresh one otherwise;
 	// engines that never sort (-sort=false, or depth 1), so that the model reproduces every line
-	for k := c.Scale(64, 6400); k > 0; k-- {
+	for k := c.Scale(48, 6400); k > 0; k-- {
 		size := 3
 		if r.Chance(1, 4) {
 			size = 4
